@@ -188,6 +188,19 @@ Theorem cli_fetch_plain_is_fetch_of_all : forall keep uts is_binary files c,
 Proof. exact cli_fetch_plain_lemma. Qed.
 Print Assumptions cli_fetch_plain_is_fetch_of_all.
 
+(* -- chunkedGrab: the profiles of one side are combined 128 at a time; the chunks are consecutive
+      pieces that together are the whole list (no source is left out, none twice, order kept), and up
+      to 128 profiles there is one chunk, combined by combineProfiles.  Tied to the code by the
+      deterministic tuples with 127, 128, 129, 130, 256, 257 profiles on the source / base side. -- *)
+Theorem chunks_cover_every_source : forall (n : nat) (l : list profile), (0 < n)%nat -> List.concat (chunks n l) = l.
+Proof. exact (fun n l => chunks_concat_lemma n l). Qed.
+Print Assumptions chunks_cover_every_source.
+
+Theorem chunked_grab_is_combine_up_to_128 : forall keep uts ps,
+  (List.length ps <= chunk_size)%nat -> chunked_grab keep uts ps = combine_profiles keep uts ps.
+Proof. exact chunked_grab_small_lemma. Qed.
+Print Assumptions chunked_grab_is_combine_up_to_128.
+
 (* -- statements kept in full but NOT proved here (fallback ladder of DESIGN 5.22): each is covered on
       every run by the correspondence of the executable model with the implementation and by the
       evaluated specification checker S_Combine.spec_ok; the theorems above are their proved parts -- *)
